@@ -158,6 +158,10 @@ impl Val {
         }
     }
     pub fn max_abs(&self) -> i64 {
+        // the bottom of Max<i64> (i64::MIN inside the lattice wrapper) is a legal, inert value
+        if let Val::Mx(i64::MIN) = self {
+            return 0;
+        }
         let mut l = vec![];
         self.leaves(&mut l);
         l.iter().map(|x| x.saturating_abs()).max().unwrap_or(0)
